@@ -47,7 +47,7 @@ def limits(db, ctx):
     rmx = db.const("input_text::buffer::REALLY_MAX_LENGTH")
     ctx.ob("consts", mx == 49149 and rmx == 65535, "MAX_LENGTH=%s (documented 49149), REALLY_MAX_LENGTH=%s (must be <= u16::MAX=65535 "
                                                    "because offsets are stored as u16)" % (mx, rmx))
-    dt = db.one("do_tokenize", "StatefulTokenizer")
+    dt = db.view(db.one("do_tokenize", "StatefulTokenizer"), keep=("rewrite_input", "build_lattice", "resolve_best_path"))
     order = [(c, ps) for c, ps in walk(dt.hir) if is_call(c) and (callee(c) in db.fns or path_ends(callee(c), ("start_build", "build", "rewrite_input", "build_lattice")))]
     names = [short_path(callee(c)) for c, _ in order]
     first = order[0] if order else None
@@ -159,7 +159,7 @@ def _bound_ev(isb, point):
 @rule("C03.total-lattice", "empty text returns before the lattice is built; when no candidate was created the last OOV provider is "
                            "invoked, and a still-empty position is an error; loading rejects a configuration without OOV providers")
 def total_lattice(db, ctx):
-    dt = db.one("do_tokenize", "StatefulTokenizer")
+    dt = db.view(db.one("do_tokenize", "StatefulTokenizer"), keep=("rewrite_input", "build_lattice", "resolve_best_path"))
     bl_call = [c for c, _ in walk(dt.hir) if is_call(c) and path_ends(callee(c), "build_lattice")]
     if not bl_call:
         raise AnchorMissing("do_tokenize: build_lattice call")
